@@ -101,7 +101,7 @@ var checks = map[string]*Check{
 		LevelText:   "Every reachable state (up to the history bound) of a real crew driven by create / replace-state / replace-spec / delete / re-create operations and ordinary messages is visited; in each, a store that applied every reported change must equal the live crew, and a crew rebuilt from that store must behave like the original on all short continuations.",
 		LevelNote:   "Trusted: the shadow fold (copied from sio.Stdio's consumer loop) and the canonical state key; machines whose reactions commute (as the property requires).",
 		Assumptions: commonAssumptions},
-	"C14": {ID: "C14", Parts: []Part{{Harness: "sio", Func: "C14sio"}, {Harness: "sio", Func: "C14stdio"}, {Harness: "mdb", Func: "C14mdb"}, {Harness: "mdb", Func: "C14mdbRepl"}, {Harness: "mcrew", Func: "C14mcrew"}}, GoMaxProcs: 1, Category: "model_checking", QuickDeadline: 240, ThoroughDeadline: 1500,
+	"C14": {ID: "C14", Parts: []Part{{Harness: "sio", Func: "C14sio"}, {Harness: "sio", Func: "C14stdio"}, {Harness: "mdb", Func: "C14mdb"}, {Harness: "mdb", Func: "C14mdbRepl"}, {Harness: "mcrew", Func: "C14mcrew"}, {Harness: "mcrew", Func: "C14http"}}, GoMaxProcs: 1, Category: "model_checking", QuickDeadline: 240, ThoroughDeadline: 1500,
 		Engine: "E1+E2", DesignRef: "6/C14",
 		Technique:   "exhaustive enumeration of crews x routing targets x emission scripts x message-history depth on the real crew hosts, under every machine-iteration order within a deviation bound (vrange), against a breadth-first reference router",
 		LevelText:   "Every crew of 1-3 recorder machines, every routing target shape and every emission script up to the counter depth is processed by the real crew; per-machine receive logs, Result.Emitted and emission order are compared with a reference router, under every explored map-iteration order. The hosts are also driven the way they are run: text lines on the input of the real sio.Stdio processed by the real Crew.Loop (every short sequence of lines over lengths at and around the reader's buffer sizes, line ends, comments, junk, quit), and the mcrew scenarios through Service.Listener's text protocol (machines added and messages submitted as lines, dressed with comments, CRLF, junk, 70 kB payloads): every message on a line is presented exactly once to the machines it addresses.",
